@@ -30,8 +30,32 @@ func runStringMethod(id int) string {
 			return a.S
 		case "panic":
 			panic(a.Args[0].Build())
+		case "panicrt":
+			rtPanic(a.N)
 		}
 	}
+	return ""
+}
+
+// a genuine Go runtime panic (runtime.Error) whose message carries a number taken from the
+// script: index out of range [n] with length 3
+func rtPanic(n int64) {
+	s := make([]int, 3)
+	i := int(n)
+	if i < 3 {
+		i = 3
+	}
+	_ = s[i]
+}
+
+// the text of that panic's Error()
+func rtPanicMsg(n int64) (msg string) {
+	defer func() {
+		if r := recover(); r != nil {
+			msg = r.(error).Error()
+		}
+	}()
+	rtPanic(n)
 	return ""
 }
 
@@ -48,6 +72,8 @@ func runAction(a *Act, sp redact.SafePrinter) {
 	case "ret":
 	case "panic":
 		panic(a.Args[0].Build())
+	case "panicrt":
+		rtPanic(a.N)
 	case "write":
 		_, _ = sp.Write([]byte(a.S))
 	case "wstr":
@@ -94,6 +120,8 @@ func runFormatMethod(id int, s fmt.State, verb rune) {
 			switch a.K {
 			case "panic":
 				panic(a.Args[0].Build())
+			case "panicrt":
+				rtPanic(a.N)
 			case "write", "us", "ss":
 				_, _ = s.Write([]byte(a.S))
 			case "wstr":
